@@ -12,6 +12,8 @@
    C10_prefix_with_sep_iff_component_prefix (string level, about renderings "/" + "/".join(names)). *)
 From Coq Require Import NArith List Bool Arith Lia.
 From IRV Require Import Base.Exn C10.Model C10.Proofs1 C10.Proofs2 C10.Proofs3 C10.Proofs4 C10.Proofs5 C10.Proofs6 C10.StrPrefix.
+From IRV Require Import C10.CallModel Gen.C10Gen.
+From IRV Require C10.CallProofs C10.Traverse.
 Import ListNotations.
 
 (* Key lemma 1: whenever the kernel resolves a path (all symlinks followed, from any cwd, through any
@@ -192,3 +194,76 @@ Proof. vm_compute. reflexivity. Qed.
 Example C10_example_history :
   run 45 ex_fs [] 100 [ToBytes; SetBase [47; 111]%N; Numpy; Release; Numpy] (fresh ex_base [119]%N 2 None None) <> None.
 Proof. vm_compute. discriminate. Qed.
+
+(* ================================================================== call structure extracted from the source
+   "every read entry point goes through the containment check" as a theorem about the call structure EXTRACTED FROM
+   THE SOURCE on every run (Gen/C10Gen.v, fail-closed ast extraction by harness/props/c10.py: every ExternalTensor
+   method that can reach the data file — a use of self.path, an open-like call, a call of such a method — is
+   translated; anything it cannot classify is rejected; in external_data.py any direct file read or any use of
+   <tensor>.path other than name-only os.path calls is rejected).  A new unchecked fast path therefore breaks
+   C10_reading_methods_checked (or the extraction), not only the oracle. *)
+(* Soundness of the checker, for ALL statement trees and ALL runs (loops unbounded, exceptions anywhere): if `flow`
+   accepts a body from the state "nothing checked yet", every open in every trace is preceded in the same call by a
+   passing _check_path_containment with no store to base_dir/location in between. *)
+Theorem C10_call_structure_sound :
+  forall s, entry_ok s = true ->
+  forall t o, Exec s t o ->
+  forall pre post, t = pre ++ EOpen :: post ->
+  exists p1 p2, pre = p1 ++ ECheckOk :: p2 /\ ~ In EMut p2.
+Proof. exact CallProofs.entry_ok_sound. Qed.
+Print Assumptions C10_call_structure_sound.
+
+(* The extracted methods (_load, numpy, __array__, tobytes, tofile, and external_data's
+   _external_tensor_to_memory_tensor / _write_tensor_at) are all accepted ... *)
+Theorem C10_reading_methods_checked : forallb entry_ok reading_methods = true.
+Proof. vm_compute. reflexivity. Qed.
+Print Assumptions C10_reading_methods_checked.
+
+(* ... hence on every run of every one of them each open of the data file is dominated by a passing check. *)
+Theorem C10_every_read_path_checked :
+  forall s, In s reading_methods -> forall t o, Exec s t o ->
+  forall pre post, t = pre ++ EOpen :: post ->
+  exists p1 p2, pre = p1 ++ ECheckOk :: p2 /\ ~ In EMut p2.
+Proof. exact (CallProofs.all_entry_ok_sound reading_methods C10_reading_methods_checked). Qed.
+Print Assumptions C10_every_read_path_checked.
+
+(* non-vacuity: the extracted tofile does open (after the check); the checker rejects the three classic mistakes *)
+Example C10_calls_example_tofile_opens :
+  accepts m_tofile [ECheckOk; EOpen] = true /\ accepts m_tofile [ECheckRaise] = true /\ accepts m_tofile [] = true /\
+  Exec (SSeq SCheck SOpen) [ECheckOk; EOpen] ONormal.
+Proof.
+  split; [vm_compute; reflexivity|]. split; [vm_compute; reflexivity|]. split; [vm_compute; reflexivity|].
+  apply (X_seq_n SCheck SOpen [ECheckOk] [EOpen] ONormal); constructor.
+Qed.
+Example C10_calls_example_rejected :
+  entry_ok (SSeq SOpen SCheck) = false /\                            (* open before check *)
+  entry_ok (SSeq (SIf SCheck SSkip) SOpen) = false /\                (* a fast path that skips the check *)
+  entry_ok (SSeq SCheck (SSeq SMut SOpen)) = false /\                (* base_dir changed between check and open *)
+  entry_ok (SSeq (SLoop (SSeq SOpen SMut)) SSkip) = false /\         (* second iteration opens unchecked *)
+  accepts m_tofile [EOpen] = false /\ accepts m_numpy [ECheckOk; EOpen; EOpen] = false.
+Proof. vm_compute. repeat split. Qed.
+
+(* load() reaches EVERY external tensor: wherever a tensor can sit in a model — initializer of the main graph or of any
+   nested subgraph (GRAPH / GRAPHS attributes, any depth), TENSOR / TENSORS attribute of any node at any depth, in the
+   main graph or in a model-local function — the traversal of set_base_dir (modelled after _all_tensors +
+   RecursiveGraphIterator, tied by generated models) visits it, so it gets the base directory.  `Traverse.occ_model` is an
+   independent inductive definition of "occurs in the model". *)
+Theorem C10_load_traversal_complete :
+  forall m t, Traverse.occ_model m t -> snd t = true -> Traverse.gets_base m t = true.
+Proof. exact Traverse.traversal_complete. Qed.
+Print Assumptions C10_load_traversal_complete.
+
+Example C10_traversal_example :
+  let deep := Traverse.Graph [(7%N, true)] [Traverse.Node [Traverse.ATensors [(8%N, true); (9%N, false)]]] in
+  let m := Traverse.mkModel (Traverse.Graph [(1%N, true)] [Traverse.Node [Traverse.AGraphs [Traverse.Graph [] [Traverse.Node [Traverse.AGraph deep]]]; Traverse.ATensor (2%N, true)]])
+                   [[Traverse.Node [Traverse.AGraph deep; Traverse.ATensor (3%N, true)]]] in
+  map (fun i => Traverse.gets_base m (i, true)) [1; 2; 3; 7; 8]%N = [true; true; true; true; true] /\
+  Traverse.gets_base m (9%N, false) = false /\ Traverse.gets_base m (4%N, true) = false /\
+  Traverse.occ_model m (8%N, true).
+Proof.
+  vm_compute. repeat split.
+  left. eapply Traverse.occ_in_node; [left; reflexivity|].
+  eapply Traverse.occ_attr_gs; [left; reflexivity|left; reflexivity|].
+  eapply Traverse.occ_in_node; [left; reflexivity|]. eapply Traverse.occ_attr_g; [left; reflexivity|].
+  eapply Traverse.occ_in_node; [left; reflexivity|]. eapply Traverse.occ_attr_ts; [left; reflexivity|left; reflexivity].
+Qed.
